@@ -125,6 +125,10 @@ func runC02(c *ctx) {
 		cs := cutBytes(payload, cuts)
 		cases = append(cases, c02case{line: fmt.Sprintf("c02 frame 1.1 %s %s %s", vlib.Hex(w1), vlib.HexList(cs), vlib.Hex(w2)), class: class, frame: true, ver: "1.1"})
 	}
+	if strings.HasPrefix(c.replay, "c02dcase") {
+		runC02driver(c)
+		return
+	}
 	if c.replay != "" {
 		f := strings.Fields(c.replay)
 		if len(f) >= 4 && f[1] == "raw" {
@@ -314,4 +318,7 @@ func runC02(c *ctx) {
 		}
 	}
 	res.TracesVsImpl = len(cases)
+	if c.replay == "" || strings.HasPrefix(c.replay, "c02dcase") {
+		runC02driver(c)
+	}
 }
